@@ -39,6 +39,21 @@ impl DataIterator {
     }
 }
 
+#[cfg(feature = "verif-hooks")]
+impl DataIterator {
+    /// (location and item count of every DATA chunk, chunk index, item index)
+    pub(crate) fn verif_state(&self) -> (Vec<(crate::verif_hooks::Loc, usize)>, usize, usize) {
+        (
+            self.chunks
+                .iter()
+                .map(|chunk| (crate::verif_hooks::Loc::from(chunk.location), chunk.data.len()))
+                .collect(),
+            self.chunk_index,
+            self.chunk_item_index,
+        )
+    }
+}
+
 impl Iterator for DataIterator {
     type Item = DataElement;
 
